@@ -591,7 +591,8 @@ def run_case(c, wd, idx, tier, rnd, extra):
     ref = run_threads(c, wd, f"ref{idx}", "low")
     probs = spec_oracle(c, ref)
     for key, what in probs:
-        violations.append(Violation(key, what, {"case": c}))
+        # who draws the uniform number of an exchange, and how many, is how the tie finds u -- not part of the statement
+        violations.append(Violation(key, what, {"case": c, "no_failing_input_found": key == "draws"}))
     healthy = not probs or all(k in ("stale-misfit", "next-energy", "swap-rule", "not-conserved", "draws") for k, _ in probs)
     complete = ref.exception is None and not ref.sched.deadlocked and not ref.sched.timed_out and not ref.sched.errors \
         and all(col is not None and len(col) == c["P"] for col in ref.cols)
